@@ -36,7 +36,7 @@ PROPS = {
         design_ref="DESIGN.md section 4, C01",
     ),
     "C02": S(
-        [o.opc1_cache_normalisation, o.exi2_consumers, o.alias1, o.int_intervals, o.opc5_version_coverage, o.opc6_exit_templates, o.opc8_jump_arithmetic, o.opc10_handler_queue_order, o.exi1_producers] + [version.ver1_opcodes, version.ver2_dispatch, fmt.mode4, fmt.cont7],
+        [o.opc1_cache_normalisation, o.exi2_consumers, o.alias1, o.int_intervals, o.opc5_version_coverage, o.opc6_exit_templates, o.opc8_jump_arithmetic, o.opc10_handler_queue_order, o.exi1_producers, layout.blk1] + [version.ver1_opcodes, version.ver2_dispatch, fmt.mode4, fmt.cont7],
         explanation="Clauses specific to frames running on the calling thread: a forward must-dataflow over the CFG of currently_exiting_context tracks whether `offs` has skipped inline CACHE units "
                     "on every path to each identity test against an opcode that carries cache entries in some reachable interpreter (SEND on 3.12, CALL on 3.11/3.12, PRECALL on 3.11) -- "
                     "a running frame's f_lasti may rest on such an entry; every consumer addresses the exiting context as [-1] and recovers obj from the first argument of the next inner frame; "
@@ -51,7 +51,7 @@ PROPS = {
         design_ref="DESIGN.md section 4, C02",
     ),
     "C05": S(
-        e.C05 + version.API + [slices.ctx678, e.ori_rules, glue.glue12],
+        e.C05 + version.API + [slices.ctx678, e.ori_rules, glue.glue12, glue.glue13],
         explanation="The per-call-site containment discipline behind 'extract never raises': every call in extract/extract_child/extract_iter is resolved and classified; calls that run third-party code "
                     "(unwrap_stackitem, FrameIterator stepping, contexts_active_in_frame, fill_context, elaborate_frame) must lie in a try whose handler catches Exception, does not re-raise or leave the engine loop, "
                     "and appends the exception to the list that becomes Stack.error; every pop/popleft/[0]/[-1] on the engine's queues must be dominated by a non-emptiness test (CFG must-dataflow); "
@@ -67,7 +67,7 @@ PROPS = {
         design_ref="DESIGN.md section 4, C05",
     ),
     "C08": S(
-        [o.opc2_target_decoder, o.opc3_prologue, o.opc3b_fillers, o.line1, o.fall1, version.ver1_opcodes, o.opc5_version_coverage, o.opc9_unpack_ex, o.opc10_handler_queue_order, safety.esc1, safety.eqkey1],
+        [o.opc2_target_decoder, o.opc3_prologue, o.opc3b_fillers, o.line1, o.fall1, version.ver1_opcodes, o.opc5_version_coverage, o.opc9_unpack_ex, o.opc10_handler_queue_order, o.opc11_step_semantics, safety.esc1, safety.eqkey1],
         explanation="Exhaustiveness of the `as`-target decoder against the compilers: the set of opnames with a (non-raising) case in describe_assignment_target is compared with every opname that the compiler of each supported interpreter "
                     "emits in the store sequence of an always-rendered target (387 generated targets x 4 scopes x 4 interpreters, plus every always-rendered `as` target of every with statement of the 3.11 and 3.12 standard libraries, delimited by instruction source positions; compile+dis only); with-prologue lengths and fillers per interpreter (16 generated layouts plus every with statement of those standard libraries); "
                     "start_line is taken from the line tracking updated before the with-opcode test; the local-name fallback applies only when varname is None and obj is known, by identity.",
@@ -145,7 +145,7 @@ PROPS = {
         design_ref="DESIGN.md section 4, C16",
     ),
     "C06": S(
-        safety.C06 + [safety.snap, o.alias1, o.exi1_producers, fmt.mode_rules, e.opt1, safety.idkey1, safety.eqkey1] + layout.RULES + formulas.RULES,
+        safety.C06 + [safety.snap, o.alias1, o.exi1_producers, fmt.mode_rules, e.opt1, e.truth2, safety.idkey1, safety.eqkey1] + layout.RULES + formulas.RULES,
         explanation="Structural clauses of 'extraction is a pure observation': (ESC-1) in every function that can run during an extraction, every store into persistent state (globals, module-level containers and objects, "
                     "mutable defaults, thread-local state, closure cells of registered hooks, memoising decorators) is enumerated and its stored value must not be derived from a target (value-provenance propagation with id/len/repr/type/code-object sanitisers); "
                     "(ESC-2) no send/throw/close/asend/athrow/aclose/__next__/next() on anything the package did not create itself, and unwrap results are iterated only as FrameIterator/Sequence; "
@@ -160,7 +160,7 @@ PROPS = {
         design_ref="DESIGN.md section 4, C06",
     ),
     "C07": S(
-        safety.C07 + layout.RULES + formulas.RULES + [e.cont1_2, fmt.cont7],
+        safety.C07 + layout.RULES + formulas.RULES + [e.cont1_2, fmt.cont7, slices.slc8, o.int_intervals],
         explanation="Protocol of the racing-thread snapshot in _lowlevel_cpython_311.inspect_frame: every read through the interpreter-frame pointer (f_frame.contents, iframe fields, addressof, py_object array construction, slot reads) lies inside the retry loop's try; "
                     "the validity token f_lasti is sampled before the first raw read of each attempt; on the CFG, an `assert frame.f_lasti == lasti_before` re-check lies on every path from the raw header reads to the first slot read, between consecutive slot reads, "
                     "and between the last raw read and the acceptance of the snapshot; the AssertionError handler cannot fall through to acceptance; the loop is bounded by a literal and exhaustion raises. "
@@ -188,7 +188,7 @@ PROPS = {
         design_ref="DESIGN.md section 4, C04",
     ),
     "C09": S(
-        slices.C09 + [e.ctx5, e.cont1_2, e.opt1, o.alias1, o.exi1_producers, safety.esc1] + version.API,
+        slices.C09 + [e.ctx5, e.cont1_2, e.opt1, o.alias1, o.exi1_producers, o.exi2_consumers, o.opc5_version_coverage, o.opc6_exit_templates, safety.esc1] + version.API,
         explanation="inner_stack is assigned from extract_child(<manager's generator>, for_task=False) only under `not context.is_exiting` in both sibling registrations; the four-way classification of elaborate_exit_stack assigns method names in sync/async pairs that are real methods of ExitStack/AsyncExitStack "
                     "on every supported interpreter, and every private contextlib name it reads (_exit_callbacks, element order (is_sync, callback), wrapper name _exit_wrapper, free variables args/kwds, __wrapped__, MethodType exit wrappers, _GeneratorContextManagerBase attributes) "
                     "agrees with contextlib.py of CPython 3.9-3.12; the child's is_async is the negation of is_sync; children are unfolded with fill_context, appended in deque (registration) order and assigned once.",
@@ -257,7 +257,7 @@ PROPS = {
         design_ref="DESIGN.md section 4, C17",
     ),
     "C03": S(
-        [slices.slc4, e.eng1, e.eng34, cc.eng6, e.truth1, safety.idkey1] + version.API,
+        [slices.slc4, e.eng1, e.eng34, cc.eng6, e.truth1, e.truth2, e.asend1, safety.idkey1] + version.API,
         explanation="Thin: structural necessary conditions of 'the frames are the path an exception would take'. The three built-in unwrappers, as truth tables over the tests they make: a suspended generator / coroutine / "
                     "async generator unwraps to (its frame, what it delegates to) in that order, with attributes of its own family that exist on every supported interpreter (SLC-4, VER-5, VER-5b); unwrap results take the "
                     "unwrapped item's place in order, one level deeper, and the queue is drained before a frame is elaborated (ENG-3, ENG-4); the only bound on the chain is the counter of unwraps *without progress*, reset at every "
@@ -272,7 +272,7 @@ PROPS = {
         design_ref="DESIGN.md section 13.4",
     ),
     "C14": S(
-        cc.C14 + [safety.thr2, e.opt56, o.alias1, o.exi1_producers] + version.API,
+        cc.C14 + [safety.thr2, e.opt56, e.eng1, o.alias1, o.exi1_producers, o.exi2_consumers] + version.API,
         explanation="Thin: structural necessary conditions in the Trio glue. A nursery context's obj is manager._nursery and its children are exactly [extract_child(t, for_task=True) for t in that nursery's child_tasks] "
                     "(unfiltered, in order); a Task unwraps to task.coro (TRIO-1); extract_child(for_task=True) returns a stub exactly when recursion was not requested (OPT-5/6); the worker thread of to_thread.run_sync is matched "
                     "by identity of the name object, not by its value (THR-2); the search for the Trio runner skips thread-local dicts without a 'runner' entry instead of failing (TRIO-2).",
